@@ -223,6 +223,14 @@ pub(crate) fn run(seed: u64, n: u64, out: &mut Out) {
                     if agreeing.len() < required { quorum_problem = Some(format!("[C06-latest-hash-without-quorum] the filter hash trusted for block {} is reported by {} proven peer(s), {} required", fin_index as u64 * interval + 1 + j as u64, agreeing.len(), required)); break; }
                 }
             }
+            // the vote itself against Model/LatestHashes.v: the proven peers' lists as mocked, the implementation's result as the choice
+            if _step == 0 {
+                let peers_term = coq_list(&peer_hashes.iter().enumerate().map(|(i, v)| format!("({}, {})", i + 1, coq_list(&v.iter().map(|h| format!("{}", hid.id(h.as_slice()))).collect::<Vec<_>>()))).collect::<Vec<_>>());
+                let chosen = coq_list(&latest.iter().map(|h| format!("{}", hid.id(h.as_slice()))).collect::<Vec<_>>());
+                out.case(&format!("latest-{}", world), &["latest-hashes-vote"], &format!("(run_latest {} {} {})", required, peers_term, chosen),
+                    &Val::l(vec![Val::l(latest.iter().map(|h| Val::n(hid.id(h.as_slice()))).collect()), Val::b(true)]), Ok(()),
+                    &format!("world {}: {} proven peers with {:?} hashes after the finalized check point, quorum {}: {} hashes trusted", world, peer_hashes.len(), peer_hashes.iter().map(|v| v.len()).collect::<Vec<_>>(), required, latest.len()));
+            }
             let db_pending = net.storage.get_earliest_matched_blocks().is_some();
             let mem_empty = net.peers.matched_blocks().read().map(|g| g.is_empty()).unwrap_or(true);
             let records_before = matched_records(&net);
